@@ -8,19 +8,24 @@ open MechVerif.Prec MechVerif.Driver
 def fmtSym (name : String) : String :=
   match name with
   | "or" => "||" | "and" => "&&" | "xor" => "⊻" | "eq" => "⩵" | "ne" => "≠" | "lt" => "<" | "le" => "≤" | "gt" => ">" | "ge" => "≥"
-  | "add" => "+" | "sub" => "-" | "mul" => "*" | "div" => "/" | "mod" => "%" | "pow" => "^" | _ => "?"
+  | "add" => "+" | "sub" => "-" | "mul" => "*" | "div" => "/" | "mod" => "%" | "pow" => "^"
+  | "join" => "⋈" | "ljoin" => "⟕" | "rjoin" => "⟖" | "fjoin" => "⟗" | "semi" => "⋉" | "anti" => "▷"
+  | "union" => "∪" | "inter" => "∩" | "diff" => "∖" | "symdiff" => "Δ" | "subset" => "⊆" | "superset" => "⊇"
+  | "psubset" => "⊊" | "psuperset" => "⊋" | "elem" => "∈" | "notelem" => "∉" | _ => "?"
 
+open Formula in
 mutual
 /-- text of an operand as the `factor` emitter writes it -/
-partial def fmtA : A → String
-  | .lit s => s
-  | .paren t => "(" ++ fmtT t ++ ")"
-  | .neg a => "-" ++ fmtA a
-  | .not a => "¬" ++ fmtA a
+partial def fmtA (lits : List String) : Fac → String
+  | .atom n => lits.getD n "?"
+  | .paren t => "(" ++ fmtT lits t ++ ")"
+  | .neg a => "-" ++ fmtA lits a
+  | .not a => "¬" ++ fmtA lits a
+  | .tr a => fmtA lits a ++ "'"
 /-- text of a formula: the in-order sequence `fmt t`, operators between single spaces -/
-partial def fmtT (t : Tree A) : String :=
+partial def fmtT (lits : List String) (t : Tree Fac) : String :=
   let (a, rest) := MechVerif.Prec.fmt t
-  rest.foldl (fun acc p => acc ++ " " ++ fmtSym ((opTable.getD p.1.name ("?", "?", 0)).1) ++ " " ++ fmtA p.2) (fmtA a)
+  rest.foldl (fun acc p => acc ++ " " ++ fmtSym ((opTable.getD p.1.name ("?", "?", 0)).1) ++ " " ++ fmtA lits p.2) (fmtA lits a)
 end
 
 def hasLineStart (src pre : String) : Bool := src.startsWith pre || S06.hasSub src ("\n" ++ pre)
@@ -65,9 +70,10 @@ def runC08 (fields : List String) (obs : String) : String × String × String :=
       let i := parts.getD 2 ""
       let model : String :=
         if cls == "formula" then
-          match parseF ((more.headD "").splitOn " ") with
+          let (toks, lits) := tokenise ((more.headD "").splitOn " ")
+          match Formula.pForm gram (2 * toks.length + 4) toks with
           | some (t, []) =>
-            "F=" ++ hexOfText ((fmtT t ++ "\n").toList) ++ "|R=same|I=same|T=" ++ sexprT t ++ "|U=" ++ sexprT t
+            "F=" ++ hexOfText ((fmtT lits t ++ "\n").toList) ++ "|R=same|I=same|T=" ++ sexprT lits t ++ "|U=" ++ sexprT lits t
           | _ => "unparsed-formula"
         else if cls == "string" then
           match parseStrSpec (more.headD "-") with
